@@ -284,11 +284,20 @@ def r3(ctx):
         for v in variants:
             calls = [c for c in calls_in(prog, fn, arms.get(v, set())) if c.name in accept]
             hit = None
+            payload_ty = next((x["fields"][0]["ty"] for x in adt["variants"] if x["name"] == v and x["fields"]), "")
+            payload_head = re.sub(r"^(alloc::boxed::Box<|&)+", "", payload_ty).split("<", 1)[0]
             for c in calls:
-                # receiver (or first argument for the free helper) must be this variant's payload
+                # receiver (or first argument for the free helper) must be this variant's payload …
                 for f, o in receiver_roots(prog, c.fn, c.args[0]):
                     if f is fn and o.kind == "param" and o.ref == 1 and v in proj_variants(o.proj):
-                        hit = c
+                        # … and the method must be the payload type's own (not that of something inside it, e.g. Not::inner())
+                        st = (c.callee.get("self") or (c.callee.get("targs") or [""])[-1] if c.name == "match_and_add_label" else (c.callee.get("self") or ""))
+                        st_head = re.sub(r"^(alloc::boxed::Box<|&)+", "", st or "").split("<", 1)[0]
+                        if c.name == "match_and_add_label":
+                            targs = c.callee.get("targs") or []
+                            st_head = re.sub(r"^(alloc::boxed::Box<|&)+", "", targs[-1] if targs else "").split("<", 1)[0]
+                        if st_head == payload_head or not st_head:
+                            hit = c
             if hit is None and method == "potential_kinds":
                 # returning None for a variant is always sound
                 nones = assigns_ret_variant(fn, arms.get(v, set()), "None")
@@ -318,17 +327,48 @@ def bitset_calls(fn):
     return [c for c in fn.calls if "bit_set::BitSet" in (c.best or "") or "bit_set::BitSet" in (c.callee.get("impl_self") or "")]
 
 
+def kind_combiners(prog, root_pats):
+    """functions of ast-grep-core reachable from the given constructors/impl methods that ask children for their
+    potential_kinds (the functions that combine kind sets)"""
+    out = []
+    def exact_reach(start):
+        seen, st = set(), [start]
+        while st:
+            x = st.pop()
+            if x in seen or x not in prog.fns:
+                continue
+            seen.add(x)
+            for g in prog.family(prog.fns[x]):
+                for c in g.calls:
+                    r_ = c.callee.get("res")
+                    if r_ and c.callee.get("res_kind") != "virtual" and r_ in prog.fns:
+                        st.append(r_)
+        return seen
+
+    for pat in root_pats:
+        for r in prog.find_fns(pat):
+            for fid in sorted(exact_reach(r.id)):
+                f = prog.fns.get(fid)
+                if f is None or f.crate != "ast_grep_core" or f.is_closure:
+                    continue
+                fam_calls = [c for g in prog.family(f) for c in g.calls]
+                if any(c.name == "potential_kinds" and (c.callee.get("trait") or "").endswith("::Matcher") and not c.callee.get("res") for c in fam_calls) and f not in out:
+                    out.append(f)
+    return out
+
+
 def r4(ctx):
     prog = ctx.prog
-    disj = [r"^ast_grep_core::ops::Any::<L, P>::compute_kinds$", r"^<ast_grep_core::ops::Or<L, P1, P2> as ast_grep_core::matcher::Matcher<L>>::potential_kinds$"]
-    conj = [r"^ast_grep_core::ops::All::<L, P>::compute_kinds$", r"^<ast_grep_core::ops::And<L, P1, P2> as ast_grep_core::matcher::Matcher<L>>::potential_kinds$"]
-    for pat in disj:
-        f = ctx.anchor("R4", pat)
-        if not f:
-            continue
+    disj_roots = [r"^ast_grep_core::ops::Any::<L, P>::new$", r"^<ast_grep_core::ops::Or<L, P1, P2> as ast_grep_core::matcher::Matcher<L>>::potential_kinds$"]
+    conj_roots = [r"^ast_grep_core::ops::All::<L, P>::new$", r"^<ast_grep_core::ops::And<L, P1, P2> as ast_grep_core::matcher::Matcher<L>>::potential_kinds$"]
+    for pat in disj_roots + conj_roots:
+        ctx.anchor("R4", pat)
+    disj = kind_combiners(prog, disj_roots)
+    conj = kind_combiners(prog, conj_roots)
+    ctx.floor("R4", "disjunctive kind combiners", len(disj), 2)
+    ctx.floor("R4", "conjunctive kind combiners", len(conj), 2)
+    for f in disj:
         pcs = [c for c in f.calls if c.name == "potential_kinds"]
-        if not pcs:
-            ctx.ob("R4", "%s/children" % f.name_key(), False, "no child potential_kinds call found", where=f.loc()) if hasattr(f, "name_key") else ctx.ob("R4", "%s/children" % f.id, False, "no child potential_kinds call", where=f.loc())
         for i, c in enumerate(pcs):
             arms = option_arms(f, c)
             key = "disjunctive %s/child#%d None arm" % (short_id(f), i)
@@ -347,30 +387,17 @@ def r4(ctx):
             ctx.ob("R4", key, not bad, "when a child is unrestricted (None) the disjunction %s" % ("returns None" if not bad else "does NOT give up: " + "; ".join(sorted(set(bad))) + " — the union would miss that child's kinds"), where=f.loc(c.line))
         muts = [c.name for c in bitset_calls(f) if c.name in SHRINK]
         ctx.ob("R4", "disjunctive %s/mutators" % short_id(f), not muts, "set operations used: %s" % sorted({c.name for c in bitset_calls(f)}), where=f.loc())
-    for pat in conj:
-        f = ctx.anchor("R4", pat)
-        if not f:
-            continue
+    for f in conj:
         fam = prog.family(f)
         empties = [c for g in fam for c in bitset_calls(g) if c.name in EMPTY_CTORS or c.name in ("difference_with", "difference", "remove", "clear", "symmetric_difference_with")]
         ctx.ob("R4", "conjunctive %s/no empty set" % short_id(f), not empties,
                "conjunction never manufactures an empty/shrunk-by-difference set (calls: %s)" % sorted({c.name for g in fam for c in bitset_calls(g)}) if not empties else
                "conjunction creates or clears a BitSet (%s): an unrestricted child (None) could become the empty set and every candidate would be skipped" % [c.name for c in empties], where=f.loc())
-        pcs = [c for c in f.calls if c.name == "potential_kinds"]
-        for i, c in enumerate(pcs):
-            arms = option_arms(f, c)
-            if not arms["none"]:
-                continue  # And: matched as a tuple, covered by the no-empty-set rule
-            bad = []
-            for nb in arms["none"]:
-                blocks = f.reachable_from(nb, stop=[c.bb])
-                # a None child must not force a `None`/empty return by itself: fine either way (None is sound)
-            ctx.ob("R4", "conjunctive %s/child#%d None arm" % (short_id(f), i), True, "None child is skipped (returning None or continuing are both sound for a conjunction)", where=f.loc(c.line), nontrivial=False)
 
 
 def short_id(f):
     m = re.search(r"ops::(\w+)", f.id)
-    return "%s::%s" % (m.group(1) if m else "?", f.name)
+    return "%s::%s" % (m.group(1), f.name) if m and "::" in f.id.split("ops::", 1)[1] else f.id.rsplit("::", 1)[-1]
 
 
 # ------------------------------------------------------------------------------------------------
